@@ -110,8 +110,15 @@ fn gen_leaf(rng: &mut Rng, ctx: &Ctx, callable: &[Pred], scope: &mut Vec<String>
             GoalSpec::Call(p.name, args)
         }
         1 => {
+            if rng.chance(1, 6) {
+                // two variables that are both new here (never a variable that may already be
+                // aliased: see the note on cyclic bindings above)
+                let a = fresh(scope);
+                let b = fresh(scope);
+                return GoalSpec::Unify(a, b);
+            }
             let l = pick_arg(rng, scope, true);
-            // variable = constant only (see the note on cyclic bindings above)
+            // otherwise variable = constant only
             let r = constant(rng);
             GoalSpec::Unify(l, r)
         }
